@@ -360,76 +360,13 @@ func parkedInStackLocks(dump string) (n int, where []string) {
 	return
 }
 
-var goroutineHdr = regexp.MustCompile(`(?m)^goroutine (\d+) \[([^\],]+)[^\]]*\]:$`)
-
-// lockState summarises a goroutine dump: ids of goroutines parked in a mutex with a spine-go frame
-// on their stack, and whether any goroutine with a spine-go frame is able to run.
-func lockState(dump string) (parked map[string]string, progressing bool) {
-	parked = map[string]string{}
-	blocks := strings.Split(dump, "\n\n")
-	for _, b := range blocks {
-		m := goroutineHdr.FindStringSubmatch(b)
-		if m == nil {
-			continue
-		}
-		frames := world.SpineFrames(b)
-		if len(frames) == 0 {
-			continue
-		}
-		switch {
-		case strings.HasPrefix(m[2], "sync.Mutex.Lock"), strings.HasPrefix(m[2], "sync.RWMutex"):
-			parked[m[1]] = frames[0]
-		case m[2] == "running", m[2] == "runnable", m[2] == "syscall", m[2] == "sleep", m[2] == "IO wait":
-			progressing = true
-		}
-	}
-	return
-}
-
-// awaitOrDiagnose waits for done. After 60 s it looks at the goroutines twice, 3 s apart: a deadlock
-// is reported only if the same >= 2 goroutines are parked in locks inside spine-go both times and
-// no goroutine inside spine-go can run. Otherwise the workload is merely slow: it keeps waiting (up
-// to 10 minutes in total, then the run is inconclusive).
+// awaitOrDiagnose: see world.AwaitOrDiagnose (60 s patience, 10 minutes in total).
 func awaitOrDiagnose(done <-chan struct{}) (sig string, detail string, inconclusive bool) {
-	select {
-	case <-done:
-		return "", "", false
-	case <-time.After(60 * time.Second):
+	where, detail, inconclusive := world.AwaitOrDiagnose(done, 60*time.Second, 10*time.Minute, 2)
+	if where != "" {
+		return "C17/deadlock/" + where, "the workload did " + detail, false
 	}
-	deadline := time.Now().Add(9 * time.Minute)
-	for {
-		d1 := dumpAll()
-		select {
-		case <-done:
-			return "", "", false
-		case <-time.After(3 * time.Second):
-		}
-		d2 := dumpAll()
-		p1, run1 := lockState(d1)
-		p2, run2 := lockState(d2)
-		same := len(p1) >= 2 && len(p1) == len(p2)
-		for id := range p1 {
-			if _, ok := p2[id]; !ok {
-				same = false
-			}
-		}
-		if same && !run1 && !run2 {
-			var where []string
-			for _, f := range p2 {
-				where = append(where, f)
-			}
-			sort.Strings(where)
-			return "C17/deadlock/" + strings.Join(uniq(where), "+"), fmt.Sprintf("the workload did not finish within 60 s; the same %d goroutines wait for locks inside spine-go in two dumps 3 s apart and no goroutine inside spine-go can run: %v\n%s", len(p2), where, d2), false
-		}
-		if time.Now().After(deadline) {
-			return "", d2, true
-		}
-		select {
-		case <-done:
-			return "", "", false
-		case <-time.After(10 * time.Second):
-		}
-	}
+	return "", detail, inconclusive
 }
 
 func TestWorkloads(t *testing.T) {
